@@ -99,6 +99,20 @@ class History:
         if probs:
             self.ctx.violation("dag_inconsistent", self.case(), {"after": what, "problems": probs[:6]}, key="dag:" + what[0] + ":" + probs[0].split(":")[0][:40])
             self.alive = False
+        for src, reg0, counts0, at in self.__dict__.get("sources", []):
+            self.ctx.count("copy:source_rechecks")
+            try:
+                p2 = list(dagmon.check(src, None, deep=True))
+                if {k: list(v) for k, v in dict(src.register).items()} != reg0 or (src.n_emitters, src.n_photons, src.n_classical) != counts0:
+                    p2.append(f"register sizes of the copied-from circuit changed without an edit on it: {reg0} -> {dict(src.register)}")
+            except Exception as e:
+                p2 = [f"the checker could not walk the copied-from circuit: {type(e).__name__}: {e}"]
+            if p2:
+                self.ctx.violation("copy_source_changed_by_edits_on_the_copy", self.case(), {"copied_at_edit": at, "after": what, "problems": p2[:5]},
+                                   key="dag:copy_source:" + p2[0].split(":")[0][:40])
+                self.alive = False
+                self.sources = []
+                break
         return not probs
 
     def node_of(self, op):
@@ -204,6 +218,11 @@ class History:
                 probs = dagmon.check(new, None, deep=True)
                 if probs:
                     ctx.violation("copy_inconsistent", self.case(), {"problems": probs[:5]}, key="dag:copy")
+                # the source of the copy is kept: no edit is applied to it any more, so nothing about it may change while the
+                # history goes on on the copy (registers, wires, indexes)
+                self.__dict__.setdefault("sources", []).append((circ, {k: list(v) for k, v in dict(circ.register).items()},
+                                                                (circ.n_emitters, circ.n_photons, circ.n_classical), len(self.desc)))
+                ctx.count("copy:sources_kept")
                 self.circ = new
                 for o in prog.ops:
                     o.obj = None
